@@ -59,6 +59,7 @@ fn get_border(
             Some("medium") => BorderStyle::Medium,
             Some("thick") => BorderStyle::Thick,
             Some("double") => BorderStyle::Double,
+            Some("dotted") => BorderStyle::Dotted,
             Some("slantdashdot") => BorderStyle::SlantDashDot,
             Some("mediumdashed") => BorderStyle::MediumDashed,
             Some("mediumdashdot") => BorderStyle::MediumDashDot,
@@ -475,16 +476,16 @@ pub(super) fn parse_dxf(
                             f.color = get_color_indexed(feat, theme, indexed)?;
                         }
                         "b" => {
-                            f.b = Some(true);
+                            f.b = Some(!matches!(feat.attribute("val"), Some("0" | "false")));
                         }
                         "i" => {
-                            f.i = Some(true);
+                            f.i = Some(!matches!(feat.attribute("val"), Some("0" | "false")));
                         }
                         "u" => {
-                            f.u = Some(true);
+                            f.u = Some(feat.attribute("val") != Some("none"));
                         }
                         "strike" => {
-                            f.strike = Some(true);
+                            f.strike = Some(!matches!(feat.attribute("val"), Some("0" | "false")));
                         }
                         "sz" => {
                             f.sz = Some(
